@@ -231,6 +231,11 @@ func printReport(rep *gsx.Report) {
 		fmt.Printf("== %s paths=%v reached=%v\n", n, hr.Paths, keys(hr.Reached))
 		for _, v := range hr.Violations {
 			fmt.Printf("   VIOL %s: %s\n      site=%s pos=%s definite=%v\n      nd=%s\n", v.Kind, v.Msg, v.Site, v.Pos, v.Definite, ndString(v.Nd))
+			if os.Getenv("GSX_PC") != "" {
+				for _, pc := range v.PathCond {
+					fmt.Printf("      pc: %s\n", pc)
+				}
+			}
 		}
 		for _, s := range hr.Incon {
 			fmt.Printf("   INCON %s\n", s)
